@@ -379,7 +379,7 @@ func streamC08(res *Result, enc *shardWriter, tlcOuts []string) {
 	phase("c08: TLC schedules done", res)
 	thorough := os.Getenv("VERIF_TIER") == "thorough"
 	// (B1) every composition of every short input over an alphabet that holds CRLF, NUL runs, multi-byte characters
-	alpha := []string{"a", " ", "\n", "\r", "\x00", "#", "`", ">", "-", "\xc3\xa9"}
+	alpha := []string{"a", " ", "\n", "\r", "\x00", "#", "`", ">", "-", "\xc3\xa9", "\xef\xbb\xbf"}
 	maxLen := 3
 	if thorough {
 		maxLen = 4
@@ -483,8 +483,15 @@ type c01Trace struct {
 }
 
 func runC01(input []byte, entry int) *c01Trace {
-	buf := append([]byte(nil), input...)
-	orig := append([]byte(nil), input...)
+	// the caller's buffer has spare capacity (filled with a sentinel): nothing may be written there or shifted into it
+	spare := 3*bytes.Count(input, []byte{0}) + 16
+	full := make([]byte, len(input)+spare)
+	copy(full, input)
+	for i := len(input); i < len(full); i++ {
+		full[i] = 0xAA
+	}
+	buf := full[:len(input)]
+	orig := append([]byte(nil), full...)
 	t := &c01Trace{Entry: entry, N: len(input), Nul: bytes.Count(input, []byte{0}), Recs: [][]int{}, Srcs: [][]int{}, Der: [][]int{}, In: []int{}}
 	var blocks []*commonmark.RootBlock
 	var refs commonmark.ReferenceMap
@@ -525,7 +532,7 @@ func runC01(input []byte, entry int) *c01Trace {
 		} else {
 			so, eo := int(b.StartOffset), int(b.EndOffset)
 			gap, lineOK, srcOK := 0, 0, 0
-			if so >= prevEnd && so <= len(orig) && eo <= len(orig) && so <= eo {
+			if so >= prevEnd && so <= len(input) && eo <= len(input) && so <= eo {
 				if isBlankBytes(orig[prevEnd:so]) {
 					gap = 1
 				}
@@ -540,14 +547,14 @@ func runC01(input []byte, entry int) *c01Trace {
 			t.Der = append(t.Der, []int{gap, lineOK, srcOK})
 		}
 	}
-	if long && prevEnd <= len(orig) && isBlankBytes(orig[prevEnd:]) {
+	if long && prevEnd <= len(input) && isBlankBytes(orig[prevEnd:len(input)]) {
 		t.TailB = 1
 	}
 	// rendering and formatting must not touch the caller's buffer either
 	var sink bytes.Buffer
 	_ = commonmark.RenderHTML(&sink, blocks, refs)
 	formatBlocks(&sink, blocks)
-	if bytes.Equal(buf, orig) {
+	if bytes.Equal(full, orig) {
 		t.Same = 1
 	}
 	return t
@@ -710,7 +717,7 @@ func streamC01(res *Result, enc *shardWriter) {
 	}
 	exhaustive(alpha, maxLen, emit)
 	// white space that is NOT a blank-line character (form feed, vertical tab, NBSP, EM SPACE, NEL): a line made of it is content
-	exhaustive([]string{"a", " ", "\n", "\f", "\v", "\u00a0", "\u2003", "\u0085", "\r"}, maxLen-1, emit)
+	exhaustive([]string{"a", " ", "\n", "\f", "\v", "\u00a0", "\u2003", "\u0085", "\r", "\ufeff", "#"}, maxLen-1, emit)
 	src := newSource(1)
 	n := 8000
 	if thorough {
